@@ -352,7 +352,11 @@ def run_unit(unit, R, tier):
             check_value(R, "k", c, "sweep", with_tail=False)
             check_value(R, "k", "a" + c + "b", "sweep")
             check_value(R, "k", c + c, "sweep", with_tail=False)
-        R.sample({"space": "sweep", "from": lo, "to": hi - 1, "example": dump_cookie("k", "a" + chr(lo if not 0xD800 <= lo <= 0xDFFF else 0xE000) + "b", path=None)})
+        try:
+            ex = dump_cookie("k", "a" + chr(lo if not 0xD800 <= lo <= 0xDFFF else 0xE000) + "b", path=None)
+            R.sample({"space": "sweep", "from": lo, "to": hi - 1, "example": ex})
+        except Exception:  # noqa: BLE001 - already reported per case
+            pass
     elif kind == "strings":
         _, i, depth = unit
         for n in range(1, depth + 1):
@@ -371,7 +375,10 @@ def run_unit(unit, R, tier):
         check_value(R, "k", "", "strings")
         for a in ATOMS:
             check_value(R, "k", a, "strings")
-        R.sample({"space": "strings", "value": '";\\', "header": dump_cookie("k", '";\\', path=None)})
+        try:
+            R.sample({"space": "strings", "value": '";\\', "header": dump_cookie("k", '";\\', path=None)})
+        except Exception:  # noqa: BLE001
+            pass
     elif kind == "keys":
         vals = [""] + list(gen.strings(ATOMS, 2, 1))
         for key in KEYS:
@@ -382,8 +389,11 @@ def run_unit(unit, R, tier):
         _, a, b = unit
         for case in itertools.islice(attr_cases(tier), a, b):
             run_attr_case(R, case)
-        R.sample({"space": "attrs", "header": dump_cookie("k", "a;b", max_age=60, expires=T0, path="/a;b",
-                                                            domain=".example.com", samesite="lax")})
+        try:
+            R.sample({"space": "attrs", "header": dump_cookie("k", "a;b", max_age=60, expires=T0, path="/a;b",
+                                                                domain=".example.com", samesite="lax")})
+        except Exception:  # noqa: BLE001 - already reported per case
+            pass
     elif kind == "jar":
         _, i, depth = unit
         for n in range(1, depth + 1):
